@@ -53,6 +53,20 @@ def build(it, geom, lamform='uniform', yform='none', extra=None, sfx=''):
         kw['laminaprop'] = mat
         plyts = [kw['plyt']] * 2
         props = [mat] * 2
+    elif lamform == 'plyts+laminaprop':
+        # per-ply thicknesses with one material, and a nominal plyt set as well: the explicit list wins
+        plyts = [real('t0'), real('t1')]
+        props = [mat] * 2
+        kw['plyts'] = plyts
+        kw['plyt'] = real('plyt_nominal')
+        kw['laminaprop'] = mat
+    elif lamform == 'plyt+laminaprops':
+        mat2 = tuple(real(x + 'b') for x in MAT)
+        props = [mat, mat2]
+        kw['plyt'] = real('plyt')
+        plyts = [kw['plyt']] * 2
+        kw['laminaprops'] = props
+        kw['laminaprop'] = tuple(real(x + '_nominal') for x in MAT)
     else:
         plyts = [real('t0'), real('t1')]
         mat2 = tuple(real(x + 'b') for x in MAT)
@@ -102,8 +116,10 @@ def check_calc_k0(led, replay=None):
     led.function(PF + '_get_lam_F')
     n_paths = 0
     it, calls = mk()
-    for geom, lamform, yform, pre, szform, fin in itertools.product(GEOMS, ('uniform', 'per-ply'), ('none', 'both', 'y1only'),
+    for geom, lamform, yform, pre, szform, fin in itertools.product(GEOMS, ('uniform', 'per-ply', 'plyts+laminaprop', 'plyt+laminaprops'), ('none', 'both', 'y1only'),
                                                                     ('none', 'preload'), ('default', 'given'), (True, False)):
+        if lamform in ('plyts+laminaprop', 'plyt+laminaprops') and (geom != 'plate' or szform != 'default' or not fin):
+            continue          # the mixed laminate forms only concern _rebuild: one geometry is enough
         tag = '%s,%s,y=%s,%s,size=%s,finalize=%s' % (geom, lamform, yform, pre, szform, fin)
         extra = {}
         if pre == 'preload':
@@ -690,3 +706,64 @@ def _kernel_terms(r):
         w_, ts = pycheck.terms_of(t)
         out += [x for k_, x in ts if isinstance(x, Opaque) and x.kind == 'kernel']
     return out
+
+
+# --------------------------------------------------------------------------
+def check_calc_k0_numeric(led):
+    """Panel.calc_k0 on the numeric route (a state c and / or a laminate table given): the numerically integrated constitutive matrix of
+    the caller's state and laminate, PLUS the same constant pre-load term fkG0(Nxx_cte, Nyy_cte, Nxy_cte) as on the analytic route --
+    so that the two routes agree at the undeformed state also for a pre-loaded panel (C14), and kT(0) = k0 (C08)."""
+    from ..kernel import InArray, user_array
+    func = PF + 'calc_k0'
+    it, calls = mk()
+    for geom, pre, route in itertools.product(('plate', 'cpanel'), ('none', 'preload'), ('c', 'Fnxny', 'c+Fnxny')):
+        extra = dict(Nxx_cte=real('Nxx_cte'), Nyy_cte=real('Nyy_cte'), Nxy_cte=real('Nxy_cte')) if pre == 'preload' else {}
+        holder = {}
+
+        def run():
+            del calls[:]
+            p, kw, want, g = build(it, geom, 'uniform', 'none', extra)
+            it.call(it.getattr(p, 'calc_k0'), [], dict(silent=True))
+            size = it.call(it.getattr(p, 'get_size'), [], {})
+            del calls[:]
+            kwargs = dict(silent=True)
+            c = Fn = None
+            if 'c' in route.split('+'):
+                c = user_array('c', shape=(size,))
+                kwargs['c'] = c
+            if 'Fnxny' in route:
+                Fn = InArray('Fnxny_user', shape=(integer('nxq'), integer('nyq'), 6, 6))
+                kwargs.update(Fnxny=Fn, nx=integer('nxq'), ny=integer('nyq'))
+            holder.update(kw=kw, want=want, g=g, c=c, Fn=Fn, size=size)
+            return it.call(it.getattr(p, 'calc_k0'), [], kwargs)
+        res = it.explore(run)
+        for path, out in res:
+            conds = [repr(c_) for c_ in path.conds]
+            name = '%s[%s,%s,numeric route: %s]%s' % (func, geom, pre, route, '' if len(res) == 1 else '/' + ' & '.join(c_ for c_ in conds if 'cte' in c_)[:80])
+            if out[0] != 'return':
+                report(led, name + '/no-exception', func, ['raises %s%s' % (out[1].tname, tuple(str(a)[:80] for a in out[1].eargs))], signature='raise:' + out[1].tname)
+                continue
+            kw, want, g, c, Fn = (holder[k] for k in ('kw', 'want', 'g', 'c', 'Fn'))
+            wrap, terms = pycheck.terms_of(out[1])
+            probs = []
+            if wrap[:1] != ['symmetrized']:
+                probs.append('result is not passed through finalize_symmetric_matrix')
+            kern = [t for k_, t in terms if isinstance(t, Opaque) and t.kind == 'kernel']
+            expect_G = pre == 'preload' and any('!= 0' in c_ and 'cte' in c_ for c_ in conds)
+            names = [t.f['fn'] for t in kern]
+            if names != ['fkL_num'] + (['fkG0'] if expect_G else []):
+                probs.append('kernel terms %s, expected fkL_num%s' % (names, ' + fkG0(N_cte): the constant pre-load belongs to the matrix on every route' if expect_G else ''))
+            else:
+                a_ = kern[0].f['args']
+                if c is not None and getattr(a_.get('cs'), 'name', None) != 'c':
+                    probs.append('fkL_num does not receive the caller state')
+                if Fn is not None and panelctx.vkey(a_.get('Finput')) != panelctx.vkey(Fn):
+                    probs.append('fkL_num does not receive the caller\'s laminate table')
+                if Fn is None and panelctx.vkey(a_.get('Finput')) != panelctx.vkey(want['lam.ABD']):
+                    probs.append('fkL_num: laminate is %s, expected the ABD of the panel definition' % pycheck.describe(a_.get('Finput')))
+                if expect_G:
+                    probs += pycheck.diff_kernel(kern[1], 'fkG0', g['model'], dict(Nxx=kw['Nxx_cte'], Nyy=kw['Nyy_cte'], Nxy=kw['Nxy_cte'], size=holder['size'], row0=0, col0=0), want)
+            if any(k_ != 1 for k_, t in terms):
+                probs.append('a term is scaled')
+            report(led, name, func, probs, signature='k0-numeric:%s' % ';'.join(probs)[:120])
+    led.solver_time('z3-feasibility', it.solver_time)
